@@ -16,6 +16,7 @@ EXPLANATION = (
     "and the handler tuple holds no reference to the sender; (3) EXC/ORDER: disconnect and disconnect_by_key cannot raise (modelled origins), connect rejects an unregistered name with "
     "NameError before the handler is appended; (4) a dead weak argument returns False before the callback is called, and liveness is tested by identity with None, not by truthiness; "
     "(5) emit visits every handler: the dispatch is a plain loop with no early exit or short-circuit, the result is accumulated and returned; (7) disconnect() identifies the handler by every field connect() stores except the key; (6) ALIAS: the handler list registered for (sender, signal) is only edited in place and never replaced - connect() holds an alias to it across the creation of the weak references, whose callbacks may disconnect at that very moment."
+    ' Added after seed round 3: (8) _prepare_user_args returns tuples it built itself (a snapshot of the connect-time arguments).'
 )
 NOT_DECIDED = "Call order and argument order for all histories (list semantics), garbage-collection timing, behaviour for handlers connected/disconnected mid-emit beyond 'handlers that stay connected are called once'."
 ASSUMPTIONS = []
